@@ -148,6 +148,12 @@ class Harness(object):
         resource_class._RESOURCE_CLASSES_SYNCED = False
         self._deploy.update_database(self.conf)
 
+    def resync(self):
+        """The start-up synchronisation run again in the SAME process (an application reload in a
+        long-lived interpreter): the process-wide 'already synchronised' flags are left as the
+        previous attempt left them."""
+        self._deploy.update_database(self.conf)
+
     # -- policy ------------------------------------------------------------------------
     def set_policy(self, rules, init=True):
         with open(self.policy_file, 'w') as f:
